@@ -22,10 +22,10 @@ TARGETS = [b"ta:80", b"tb:80", b"tc:8080", b"td"]
 
 
 def gen_deploy(rnd, name, hosts_pool):
-    root = rnd.random() < 0.55
+    root = rnd.random() < 0.6
     nh = rnd.choice([0, 1, 1, 1, 2, 2, 3]) if root else rnd.choice([0, 1, 1, 2, 2])
     hosts = rnd.sample(hosts_pool, min(nh, len(hosts_pool)))
-    tls = rnd.random() < 0.6
+    tls = rnd.random() < (0.7 if root else 0.5)
     cert = rnd.choice(["none", "none", "good"]) if tls else rnd.choice(["none", "none", "none", "good"])
     if rnd.random() < 0.03:
         tls, cert = True, "bad"
@@ -119,7 +119,10 @@ def gen_sni(rnd, hist, i, pool, k):
     for _ in range(k):
         x = rnd.random()
         c = rnd.choice(deployed) if deployed else None
-        h = rnd.choice(c["hosts"]) if c and c["hosts"] and rnd.random() < 0.8 else rnd.choice(pool)
+        tls_roots = [d for d in deployed if d["tls"] and d["hosts"] and (not d["prefixes"] or any(p.strip(b"/") == b"" for p in d["prefixes"]))]
+        if tls_roots and rnd.random() < 0.6:
+            c = rnd.choice(tls_roots)
+        h = rnd.choice(c["hosts"]) if c and c["hosts"] and rnd.random() < 0.85 else rnd.choice(pool)
         if x < 0.5:
             n = concrete(rnd, h)
         elif x < 0.65:
@@ -135,12 +138,42 @@ def gen_sni(rnd, hist, i, pool, k):
     return names
 
 
+def systematic(rnd, tier):
+    """Small scope, every combination: a root-path service (tls x redirect x certificate kind) and a sub-path
+    service (its own tls x redirect wishes) on a shared host, in permuted deployment orders, with removal,
+    restart, redeploy with flipped flags, and a second host whose root-path service has the opposite flags
+    (the sub-path service lists the two hosts in either order)."""
+    A, B = b"a.example.com", b"b.example.com"
+
+    def dep(name, hosts, prefixes, tls, redir, cert):
+        return {"op": "deploy", "name": name, "hosts": hosts, "prefixes": prefixes, "tls": bool(tls), "tls_redirect": bool(redir),
+                "strip": False, "cert": cert, "pages": "none", "topts": 0, "targets": [{"name": b"ta:80", "healthy": True}]}
+    out = []
+    for rt in (0, 1):
+        for rr in (0, 1):
+            for rc in ("none", "good"):
+                for st in (0, 1):
+                    for sr in (0, 1):
+                        root = dep(b"web", [A], [], rt, rr, rc)
+                        flipped = dep(b"web", [A], [b"/"], 1 - rt, 1 - rr, rc)
+                        sub = dep(b"api", [A], [b"/api"], st, sr, "none")
+                        rootb = dep(b"blog", [B], [b"/"], 1 - rt, 1 - rr, "good" if rc == "none" else "none")
+                        sub_ab = dep(b"api", [A, B], [b"/api"], st, sr, "none")
+                        sub_ba = dep(b"api", [B, A], [b"api/"], st, sr, "none")
+                        out += [[root, sub], [sub, root], [sub, root, {"op": "remove", "name": b"web"}],
+                                [root, sub, {"op": "restart"}, flipped], [root, rootb, sub_ab, {"op": "restart"}],
+                                [rootb, sub_ba, root, {"op": "remove", "name": b"blog"}]]
+    if tier == "quick":
+        out = rnd.sample(out, 40)
+    return [(h, [A, B]) for h in out]
+
+
 def gen_cases(seed, tier):
     rnd = random.Random(seed)
-    n = 70 if tier == "quick" else 700
+    n = 60 if tier == "quick" else 700
+    hp = systematic(rnd, tier) + [gen_history(rnd, rnd.randint(4, 10)) for _ in range(n)]
     cases = []
-    for _ in range(n):
-        hist, pool = gen_history(rnd, rnd.randint(4, 10))
+    for hist, pool in hp:
         mats = [gen_matrix(rnd, hist, i, pool, 8) for i in range(len(hist))]
         snis = [gen_sni(rnd, hist, i, pool, 6) for i in range(len(hist))]
         cases.append((hist, mats, snis, pool))
@@ -169,7 +202,7 @@ def run(tier, seed):
     try:
         ok, blog = coq_build(["props/C16.vo", "corr/C16corr.vo"])
         proofs_ok, pa = proof_obligations(work, res, "C16.v", ok, blog)
-        gate = coq_gate()
+        gate = m4x.gate_for(["props/C16.v", "corr/C16corr.v"])
         if gate:
             proofs_ok = False
             pa += "\nforbidden constructs: " + "; ".join(gate[:10])
@@ -187,7 +220,10 @@ def run(tier, seed):
                     certs.append([(bytes.fromhex(a["name"]), a["answer"], g["t1"] - g["t0"]) for a in g["answers"]])
                 cert_obs.append(certs)
                 cterm = list_lit([list_lit(["(%s, %d)" % (str_lit(nm), ANSWER.get(a, 9)) for (nm, a, _) in c]) for c in certs])
-                terms.append("(%s,\n %s)" % (m4.history_term(h, m, o), cterm))
+                # 503 page bodies are not part of C16's projection: leave them out of the terms
+                with m4x.body_literals(lambda b: "[]" if len(b) > 1000 else str_lit(b)):
+                    hterm = m4.history_term(h, m, o)
+                terms.append("(%s,\n %s)" % (hterm, cterm))
             defs = "Definition ig := %s.\n" % m4.simple_in_group()
             expr = ("fun hc => let h := fst hc in let cs := snd hc in "
                     "(map (fun m => (mi_step m, mi_what m)) (check_history ig fixed (c16_history h)), "
@@ -229,7 +265,8 @@ def run(tier, seed):
         res.coverage.update({
             "evaluations": nreq + ncert, "distinct_nontrivial": len({json.dumps(s, sort_keys=True) for s in scenarios}),
             "rule": "one evaluation = one request answered by the real router, or one Router.GetCertificate call, after a command of a "
-                    "generated history (%d histories of 4-10 commands; 8 requests and 6 server names after each command); distinct = "
+                    "generated history (%d histories: a sample of the systematic root/sub-path flag and order combinations + random histories of "
+                    "4-10 commands; 8 requests and 6 server names after each command); distinct = "
                     "distinct scenarios by JSON" % len(cases),
             "input_distribution": {"commands": cmds, "deploy_kinds": combos},
             "outcome_distribution": {"status": statuses, "getcertificate": answers,
